@@ -87,7 +87,7 @@ func genCluster(r *u.Rng) cluster {
 		if r.Chance(1, 2) {
 			q = hot
 		}
-		c.Jobs = append(c.Jobs, alJob{UID: i + 1, Queue: q, Prio: u.Pick(r, []int32{40, 50, 50, 60, 75, 100, 100, 125}),
+		c.Jobs = append(c.Jobs, alJob{UID: i + 1, Queue: q, Prio: u.Pick(r, prios),
 			Age: int64(r.Intn(8)), Template: r.Intn(nt)})
 	}
 	// a few running single-GPU jobs so that nodes and queues start unevenly used
